@@ -329,6 +329,20 @@ func (g *rnsGen) next() (sdk.Msg, map[string]interface{}) {
 	case k < 96:
 		// del record: "sub.name.tld"
 		sub := []string{"sub", "foo", "www", "Foo"}[r.Intn(4)]
+		if r.Intn(4) > 0 { // mostly: a record that exists, on the name that carries it
+			var withSubs []rnstypes.Names
+			for _, n := range g.c.A.RnsKeeper.GetAllNames(g.c.Ctx()) {
+				if len(n.Subdomains) > 0 {
+					withSubs = append(withSubs, n)
+				}
+			}
+			if len(withSubs) > 0 {
+				n := withSubs[r.Intn(len(withSubs))]
+				sub = n.Subdomains[r.Intn(len(n.Subdomains))].Name
+				nm = n.Name + "." + n.Tld
+				ln = lowerName(nm)
+			}
+		}
 		full := sub + "." + nm
 		creator := g.actorFor(ln)
 		return &rnstypes.MsgDelRecord{Creator: creator, Name: full},
